@@ -218,7 +218,11 @@ func (t *Task) exit() {
 	if r := recover(); r != nil {
 		buf := make([]byte, 8192)
 		buf = buf[:runtime.Stack(buf, false)]
-		w.Fail("PANIC/"+panicKey(r, string(buf)), fmt.Sprintf("panic in task %s (%s): %v\n%s", t.ID, t.Site, r, buf))
+		key := "PANIC/" + panicKey(r, string(buf))
+		if strings.HasPrefix(key, "PANIC/!harness:") {
+			key = "HARNESS/panic" // no library frame on the stack: the harness' own bug
+		}
+		w.Fail(key, fmt.Sprintf("panic in task %s (%s): %v\n%s", t.ID, t.Site, r, buf))
 	}
 	gmap.Delete(t.gid)
 	w.mu.Lock()
@@ -248,7 +252,7 @@ func panicKey(r interface{}, stack string) string {
 			return l
 		}
 	}
-	return fmt.Sprint(r)
+	return "!harness:" + fmt.Sprint(r)
 }
 
 // Go starts f as a new task (child of the calling task).
